@@ -81,6 +81,8 @@ func genScenario() *rapid.Generator[*scenario] {
 		sc.Steps = rapid.SliceOfN(genStep(len(sc.Pool)), 3, evid.Pick(14, 24)).Draw(t, "steps")
 		sc.Wake = rapid.IntRange(0, 3).Draw(t, "final") != 0
 		sc.ViaCond = rapid.IntRange(0, 3).Draw(t, "viaCond") == 0
+		sc.ViaReplica = !sc.ViaCond && rapid.IntRange(0, 3).Draw(t, "viaReplica") == 0
+		sc.DestHTTP = rapid.IntRange(0, 3).Draw(t, "destOverHTTP") == 0
 		sc.ErrKind = rapid.SampledFrom([]int{vstore.ErrPlain, vstore.ErrPlain, vstore.ErrDeadline, vstore.ErrCanceled, vstore.ErrTimeout}).Draw(t, "errKind")
 		return sc
 	})
